@@ -22,14 +22,17 @@ _ALL_HEUR = _ALL_THREAT + ["FuncsHeur.lean"]
 # Fifth round (work package "gen5"): FuncsSearch (Stats.Merge, nullMoveOK, ttGet, ttPut, recordCut of ai/minimax.go) imports only
 # the files up to FuncsAI (gen/search.go groupImportsUpTo), so the search properties do not depend on the evaluator's files.
 # Sixth round (work package "gen6"): FuncsMoveIter (moveGenerator.Reset / Next of ai/moves.go) imports the files up to FuncsAI and FuncsSearch.
-_SEARCH = ["FuncsTak.lean", "FuncsMove.lean", "FuncsAI.lean", "FuncsSearch.lean", "FuncsMoveIter.lean"]
+# Seventh round (work package "gen7", task 2): FuncsZw (zwSearch itself, executed only - no bridge theorem; gen/zw.go) imports the files up to
+# FuncsAI, FuncsSearch and FuncsMoveIter; its `fn.zwsearch` op (generator FNZW) runs the regenerated definition against the real function.
+# Task 3: FuncsSort (moveGenerator.sortMoves with sort.Sort as a permutation oracle; gen/zwsort.go), op `fn.sortmoves`, generator FNSORT.
+_SEARCH = ["FuncsTak.lean", "FuncsMove.lean", "FuncsAI.lean", "FuncsSearch.lean", "FuncsMoveIter.lean", "FuncsZw.lean", "FuncsSort.lean"]
 _GEN = {
     "C01": (_ALL_APPLY, ["FNTAK", "FNPOS", "FNAPPLY"]),
     "C02": (_UPTO_EVAL + ["FuncsPos.lean", "FuncsRoad.lean"], ["FNTAK", "FNOVER", "FNROAD"]),
     "C03": (_ALL_APPLY, ["FNMOVEGEN", "FNAPPLY"]),
-    "C05": (_SEARCH, ["FNMOVE", "FNAI", "FNSEARCH", "FNITER"]),
-    "C04": (_SEARCH, ["FNSEARCH", "FNITER"]),
-    "C16": (_SEARCH, ["FNSEARCH", "FNITER"]),
+    "C05": (_SEARCH, ["FNMOVE", "FNAI", "FNSEARCH", "FNITER", "FNZW", "FNSORT"]),
+    "C04": (_SEARCH, ["FNSEARCH", "FNITER", "FNZW", "FNSORT"]),
+    "C16": (_SEARCH, ["FNSEARCH", "FNITER", "FNZW", "FNSORT"]),
     "C14": (_UPTO_EVAL + ["FuncsPos.lean", "FuncsRoad.lean", "FuncsMoveGen.lean", "FuncsSymMove.lean"], ["FNMOVE", "FNSYM", "FNXFORM"]),
     "C06": (_UPTO_EVAL + ["FuncsPos.lean", "FuncsRoad.lean", "FuncsMoveGen.lean", "FuncsSymMove.lean", "FuncsProve.lean"], ["FNPROVE"]),
     "C15": (["FuncsTak.lean", "FuncsMove.lean", "FuncsSym.lean"], ["FNSYM"]),
